@@ -579,6 +579,54 @@ impl Failure {
     }
 }
 
+const SIG_NONTRANSITIVE: &str = "c14:comparison-not-transitive-missing-definition-ref";
+
+/// serialized text of (a duplicate of `top`'s model, sorted at the place of `top`) and of (a duplicate in which every element below
+/// that place was sorted on its own, deepest first, and then the place itself); third component: the subtree holds a
+/// DEFINITION-REF without text (the situation of the known non-transitive comparison)
+fn sort_metamorphic(top: &Element) -> Option<(String, String, bool)> {
+    let model = top.model().ok()?;
+    // index chain (among sub-elements) from the root to `top`
+    let mut chain: Vec<usize> = vec![];
+    let mut cur = top.clone();
+    while let Ok(Some(p)) = cur.parent() {
+        let i = p.sub_elements().position(|c| c == cur)?;
+        chain.push(i);
+        cur = p;
+    }
+    chain.reverse();
+    let descend = |m: &AutosarModel| -> Option<Element> {
+        let mut e = m.root_element();
+        for i in &chain {
+            e = e.sub_elements().nth(*i)?;
+        }
+        Some(e)
+    };
+    let d1 = model.duplicate().ok()?;
+    let d2 = model.duplicate().ok()?;
+    let (t1, t2) = (descend(&d1)?, descend(&d2)?);
+    if t1.serialize() != t2.serialize() {
+        return None; // duplicate() itself is not faithful here (judged by C13)
+    }
+    let defref = t1.elements_dfs().any(|(_, e)| e.element_name() == ElementName::DefinitionRef && e.character_data().is_none());
+    let all: Vec<Element> = t2.elements_dfs().map(|(_, e)| e).collect();
+    for e in all.iter().rev() {
+        e.sort();
+    }
+    t1.sort();
+    t2.sort();
+    Some((t1.serialize(), t2.serialize(), defref))
+}
+
+fn first_difference(a: &str, b: &str) -> (String, String) {
+    for (x, y) in a.lines().zip(b.lines()) {
+        if x != y {
+            return (x.trim().to_string(), y.trim().to_string());
+        }
+    }
+    (String::from("(length)"), String::from("(length)"))
+}
+
 const SIG_COLLISION: &str = "c04:container-move-copy-collision";
 const SIG_ANCESTOR: &str = "c12:move-to-ancestor-parent-locked";
 const SIG_MIXED_C03: &str = "c03:mixed-set-cdata-drops-children";
@@ -1412,6 +1460,14 @@ impl Checker {
         } else {
             None
         };
+        // C14, order independence as a metamorphic relation: sorting a copy of the model must give the same text as sorting a
+        // copy in which every sub-element was sorted on its own first (that copy is a permutation of reorderable siblings)
+        let sort_meta: Option<(String, String, bool)> = if (verb == "sort" || verb == "sortm") && self.on("C14") {
+            let top = if verb == "sort" { handles.first().cloned() } else { self.w.h_model(words.get(1).unwrap_or(&"")).map(|m| m.1.root_element()) };
+            top.and_then(|t| sort_metamorphic(&t))
+        } else {
+            None
+        };
         let files_trigger: Option<(&'static str, &'static str)> = match verb {
             "addfile" => match (handles.first().and_then(|x| x.model().ok()), self.w.h_file(words.get(2).unwrap_or(&""))) {
                 (Some(m), Some(f)) if !m.files().any(|x| x == f) => Some(SIG_STALE_FILE),
@@ -1557,6 +1613,18 @@ impl Checker {
             }
             if !ok {
                 out.push(Failure::new("C14", "fails", format!("`{req}` answers `{ans}`")));
+            }
+            if let Some((plain, presorted, defref_without_text)) = &sort_meta {
+                *self.counts.entry("oracle.c14_metamorphic_checks").or_insert(0) += 1;
+                if plain != presorted {
+                    let (a, b) = first_difference(plain, presorted);
+                    let msg = format!("`{req}`: sorting a duplicate of the model and sorting a duplicate whose sub-elements were each sorted on their own first (a permutation of reorderable siblings) give different texts; first difference: `{a}` vs `{b}`");
+                    if *defref_without_text {
+                        out.push(Failure::known("C14", SIG_NONTRANSITIVE, msg));
+                    } else {
+                        out.push(Failure::new("C14", "order-dependent-subtree", msg));
+                    }
+                }
             }
         }
         if c13 {
